@@ -774,6 +774,27 @@ class Interp:
         env2.fn_qual = getattr(env, "fn_qual", None)
         rec(0, env2)
 
+    def merged_eval(self, thunk):
+        """value of a pure scalar computation as ONE if-then-else term over its internal case distinctions (no forking of the
+        enclosing path); a sub-path that raises becomes a fork of the enclosing path at its condition"""
+        c = ctx()
+        outs = c.merged(thunk)
+        vals = []
+        for pcnd, (kind, v) in outs:
+            if kind == "raise":
+                if c.decide(pcnd):
+                    raise v
+            else:
+                if not isinstance(v, (bool, int, SBool, SInt, XR)):
+                    raise Unsupported("merged computation with a non-scalar result")
+                vals.append((pcnd, v))
+        if not vals:
+            raise PathInfeasible()
+        r = vals[-1][1]
+        for pcnd, v in reversed(vals[:-1]):
+            r = vite(pcnd, v, r)
+        return r
+
     def comp_snapshot(self, e, env):
         """elements of a symbolic comprehension are evaluated lazily: freeze the current bindings of the names it mentions
         (Python evaluates the comprehension now, before any later rebinding of e.g. a loop variable)"""
@@ -811,13 +832,13 @@ class Interp:
             def elem_o(i):
                 env2 = Env({nm0: src.at(i)}, env, env.module)
                 env2.comp_scope = True
-                return self.eval(e.elt, env2)
+                return self.merged_eval(lambda: self.eval(e.elt, env2))
 
             if g.ifs:
                 def cond_o(i):
                     env2 = Env({nm0: src.at(i)}, env, env.module)
                     env2.comp_scope = True
-                    return band(*[bterm(mkbool(self.truth_term(self.eval(cc, env2)))) for cc in g.ifs])
+                    return bterm(self.merged_eval(lambda: mkbool(band(*[bterm(mkbool(self.truth_term(self.eval(cc, env2)))) for cc in g.ifs]))))
                 return FilteredArr(src.length, elem_o, cond_o), src
             probe = elem_o(z3.Int(ctx().fresh("cprobe")))
             kind = "bool" if isinstance(probe, (bool, SBool)) else ("int" if isinstance(probe, (int, SInt)) else "xr")
